@@ -186,6 +186,25 @@ Inductive find_result :=
                             errors.Status maps to Internal *)
 | NotInModel.            (* errors.NewInvalid *)
 
+(* strings.TrimSuffix(s, "/") *)
+Definition trim_slash (s : str) : str := if suffixb [c_slash] s then removelast s else s.
+
+(* the text the non-exact search of FindPathFromModel compares with the index-free model paths: the index-free
+   path, plus "/<name of the last index>" when the path ends in an index *)
+Definition delete_search_key (path : str) : str :=
+  let base := remove_path_indices path in
+  if suffixb [c_rbr] path then
+    match rev (extract_index_names path) with
+    | (lastname, _) :: _ => base ++ [c_slash] ++ lastname
+    | [] => base
+    end
+  else base.
+
+(* the searched text is the index-free model path m or an ancestor of it by whole elements
+   (pathNoIndices == search || HasPrefix(pathNoIndices, TrimSuffix(search, "/") + "/"); fix 2e764cc) *)
+Definition ancestor_or_self (search m : str) : bool :=
+  eqb_str m search || prefixb (trim_slash search ++ [c_slash]) m.
+
 (* FindPathFromModel(path, rwPaths, exact).  With exact = true the loop over the map is never reached
    (the function has returned before). *)
 Definition find_path_from_model (path : str) (rw : list rw_entry) (exact : bool) : find_result :=
@@ -193,16 +212,8 @@ Definition find_path_from_model (path : str) (rw : list rw_entry) (exact : bool)
   | Some e => FoundExact e
   | None =>
     if exact then NotExact
-    else
-      let base := remove_path_indices path in
-      let search :=
-        if suffixb [c_rbr] path then
-          match rev (extract_index_names path) with
-          | (lastname, _) :: _ => base ++ [c_slash] ++ lastname
-          | [] => base
-          end
-        else base in
-      if existsb (fun e => prefixb search (remove_path_indices (rw_path e))) rw then FoundPrefix else NotInModel
+    else if existsb (fun e => ancestor_or_self (delete_search_key path) (remove_path_indices (rw_path e))) rw
+         then FoundPrefix else NotInModel
   end.
 
 (* CheckKeyValue(path, rwPath, val) with val.ValueToString() = vstr *)
